@@ -81,3 +81,43 @@ def strip_targs(q):
         elif depth == 0:
             out += ch
     return out
+
+
+def ptr_eval(n, asg):
+    """truth value of a pointer test (p, !p, p == nullptr, p != 0, && / || of those) under {decl id: is non-null}; None when the condition is something else"""
+    from astq import strip_all, val
+    n = strip_all(n)
+    if n['k'] == 'Bin' and n['op'] in ('&&', '||'):
+        a_, b_ = ptr_eval(n['l'], asg), ptr_eval(n['r'], asg)
+        if n['op'] == '&&':
+            return False if (a_ is False or b_ is False) else (None if None in (a_, b_) else True)
+        return True if (a_ is True or b_ is True) else (None if None in (a_, b_) else False)
+    if n['k'] == 'Un' and n.get('op') == '!':
+        a_ = ptr_eval(n['e'], asg)
+        return None if a_ is None else not a_
+    if n['k'] == 'Bin' and n['op'] in ('!=', '=='):
+        for x_, y_ in ((n['l'], n['r']), (n['r'], n['l'])):
+            xs, ys = strip_all(x_), strip_all(y_)
+            while xs['k'] == 'Cast':
+                xs = strip_all(xs['e'])
+            while ys['k'] == 'Cast':
+                ys = strip_all(ys['e'])
+            if xs['k'] == 'Ref' and xs.get('id') in asg and (ys['k'] == 'Null' or val(ys) == 0):
+                return asg[xs['id']] == (n['op'] == '!=')
+        return None
+    while n['k'] == 'Cast':
+        n = strip_all(n['e'])
+    if n['k'] == 'Ref' and n.get('id') in asg:
+        return asg[n['id']]
+    return None
+
+
+def normal_flow(s):
+    """copy of a statement tree in which every try statement is replaced by its block (the non-throwing flow)"""
+    if isinstance(s, dict):
+        if s.get('k') == 'Try':
+            return normal_flow(s['b'])
+        return {k_: normal_flow(v_) for k_, v_ in s.items()}
+    if isinstance(s, list):
+        return [normal_flow(x) for x in s]
+    return s
